@@ -68,16 +68,17 @@ Theorem C14_parse_instances :
   (wfp_block wit1 = true /\ parse_ok wit1) /\ (wfp_block wit2 = true /\ parse_ok wit2).
 Proof. split; split; [vm_compute; reflexivity | prove_parse_ok | vm_compute; reflexivity | prove_parse_ok]. Qed.
 
-(** The proved fragment of C14_parse_full, UNBOUNDED ([frag_block]): scripts built, to ANY nesting
-    depth, from
+(** The proved fragment of C14_parse_full, UNBOUNDED ([frag_block]): the property's whole syntax-tree
+    language in the newline spelling without indentation -- scripts built, to ANY nesting depth, from
       - command lines (break / continue included),
-      - `if cond` NL body `fi`,   `if cond` NL body `else` NL body `fi`,
+      - `if cond` NL body { `else if cond` NL body }* [ `else` NL body ] `fi`   (any number of else-if arms),
+      - `for var in words` NL body `done`,
       - `while cond` NL body `done`,
-    in the newline spelling without indentation and without blank lines, every body non-empty;
-    a command line is free of CR / LF, does not start or end with white space and does not start
-    with `if `, `for `, `else if `, `else`, `fi`, `while `, `done`; a condition is one line without
-    `;` and without white space at either end (inner blanks allowed in both).
-    NOT in the fragment: `for`, `else if` arms, the `; then` / `; do` spelling, indentation, blank lines.
+    every body non-empty, no blank lines; a command line is free of CR / LF, does not start or end
+    with white space and does not start with `if `, `for `, `else if `, `else`, `fi`, `while `, `done`;
+    a condition / word list is one line without `;` and without white space at either end (inner
+    blanks allowed); a loop variable is an identifier.
+    NOT in the fragment: the `; then` / `; do` spelling, indentation, blank lines (C14_parse_instances + L1b).
     For every such script the generic PEG interpreter on the regenerated grammar returns, for all
     sufficiently large fuel, the complete parse whose trimmed, EOI-stripped tree is tree_of_script
     (compositional per-rule lemmas + induction over the syntax tree: Proofs/LocustBlocks.v) ... *)
@@ -105,7 +106,10 @@ Example C14_parse_partial_nonvacuous :
               (BCons (SIf nil false (S2 "test -f x") (BCons (SBreak nil) BNil)
                         (AElse nil (BCons (SCmd nil (S2 "ls | wc; date")) (BCons (SCont nil) BNil)) nil))
               (BCons (SCmd nil (S2 "echo $i")) BNil)))
-    (BCons (SIf nil false (S2 "true") (BCons (SWhile nil false (S2 "false") (BCons (SCmd nil (S2 "x")) BNil)) BNil) (ANone nil))
+    (BCons (SIf nil false (S2 "true") (BCons (SWhile nil false (S2 "false") (BCons (SCmd nil (S2 "x")) BNil)) BNil)
+              (AElif nil false (S2 "grep -q a b") (BCons (SCmd nil (S2 "y")) BNil)
+              (AElif nil false (S2 "t 2") (BCons (SFor nil false (S2 "_v1") (S2 "a b2 $NOPE") (BCons (SCmd nil (S2 "echo $_v1")) BNil)) BNil)
+              (AElse nil (BCons (SCmd nil (S2 "z")) BNil) nil))))
      BNil))) = true.
 Proof. vm_compute. reflexivity. Qed.
 
